@@ -40,15 +40,34 @@ def reuse_scenario(ctx, recs_main):
 
 
 def run(ctx):
+    """Two exhaustive TLC runs per tier: the IP network (the end host attaches nothing) and the SCION
+    end host (every class of forwarder stamp, end-to-end option 253, at every delivery). The longer of
+    the two runs in a thread of its own (private copy of the spec directory) while the schedules are
+    generated and replayed; its result is awaited before the verdict."""
+    from concurrent.futures import ThreadPoolExecutor
     q = ctx.quick
-    r = ctx.tlc("NtpExchangeMC", "NtpExchange_exh.cfg" if q else "NtpExchange_deep.cfg",
-                timeout=300 if q else 2400, workers=8, heap=None if q else "20g")
-    ctx.log("TLC exhaustive: %d distinct states" % r["distinct"])
-    # the SCION end host: every class of forwarder stamp (end-to-end option 253) at every delivery
-    rf = ctx.tlc("NtpExchangeMC", "NtpExchange_fwd.cfg" if q else "NtpExchange_fwddeep.cfg",
-                 timeout=300 if q else 1200, workers=8, heap=None if q else "12g", tag="fwd")
-    ctx.log("TLC exhaustive, SCION end host with forwarder stamps: %d distinct states" % rf["distinct"])
-    n = 120 if q else 1500
+    sd = ctx.private_specdir()
+    pool = ThreadPoolExecutor(max_workers=1)
+    if q:
+        fut = pool.submit(ctx.tlc, "NtpExchangeMC", "NtpExchange_fwd.cfg", timeout=300, workers=4, tag="fwd", specdir=sd)
+    else:
+        fut = pool.submit(ctx.tlc, "NtpExchangeMC", "NtpExchange_deep.cfg", timeout=2400, workers=8, heap="20g", specdir=sd)
+    try:
+        _run(ctx, fut)
+    finally:
+        fut.exception()     # never leave the background run behind (its failure is raised by fut.result() in _run)
+        pool.shutdown()
+
+
+def _run(ctx, fut):
+    q = ctx.quick
+    if q:
+        r = ctx.tlc("NtpExchangeMC", "NtpExchange_exh.cfg", timeout=300, workers=8)
+        ctx.log("TLC exhaustive (IP network): %d distinct states" % r["distinct"])
+    else:
+        rf = ctx.tlc("NtpExchangeMC", "NtpExchange_fwddeep.cfg", timeout=1200, workers=8, heap="12g", tag="fwd")
+        ctx.log("TLC exhaustive, SCION end host with forwarder stamps: %d distinct states" % rf["distinct"])
+    n = 104 if q else 1200
 
     def gen(cfg, num, tag):
         g = ctx.tlc("NtpExchangeGen", cfg, workers=1, timeout=600, simulate="num=%d" % num, depth=90, tag=tag)
@@ -130,6 +149,14 @@ def run(ctx):
                     "SLog": "the client's log records tell another reaction / offset / delay / mode than the observation"}.get(inv, inv)
             ctx.drift.append("%s: %s" % (what, recs[l - 1] if l else "?"))
     reuse_scenario(ctx, recs)
+    # the exhaustive run that went on in the background (tool failure / timeout / a spec-level
+    # violation there is raised here as Inconclusive)
+    if q:
+        rf = fut.result()
+        ctx.log("TLC exhaustive, SCION end host with forwarder stamps: %d distinct states" % rf["distinct"])
+    else:
+        r = fut.result()
+        ctx.log("TLC exhaustive (IP network): %d distinct states" % r["distinct"])
     drv = [x for x in recs if x["ev"] in ("accept", "recv") and x.get("fw")]
     fwd_del = {c: sum(1 for x in drv if x["fw"] == c) for c in classes[1:]}
     fwd_acc = {c: sum(1 for x in acc if x.get("fw") == c) for c in classes[1:]}
